@@ -5,6 +5,10 @@ package parse
 // Binary operators are grouped by precedence climbing, see parseBinaryExpr;
 // the conditional operator binds loosest of all.
 func (t *Tree) parseExpr() (Expr, error) {
+	defer func() { t.depth-- }()
+	if err := t.deeper(); err != nil {
+		return nil, err
+	}
 	expr, err := t.parseBinaryExpr(0)
 	if err != nil {
 		return nil, err
@@ -36,6 +40,10 @@ func (t *Tree) parseExpr() (Expr, error) {
 // for right associative operators), so that operands group as defined by the
 // operator table.
 func (t *Tree) parseBinaryExpr(minPrec int) (Expr, error) {
+	defer func() { t.depth-- }()
+	if err := t.deeper(); err != nil {
+		return nil, err
+	}
 	left, err := t.parseInnerExpr()
 	if err != nil {
 		return nil, err
@@ -45,6 +53,7 @@ func (t *Tree) parseBinaryExpr(minPrec int) (Expr, error) {
 		return nil, err
 	}
 
+	links := 0
 	for {
 		nt := t.peekNonSpace()
 		if nt.tokenType != tokenOperator {
@@ -73,6 +82,10 @@ func (t *Tree) parseBinaryExpr(minPrec int) (Expr, error) {
 			return nil, err
 		}
 		left = NewBinaryExpr(left, op.Operator(), right, left.Start())
+		// Every link of a left-associative chain is a level of the tree too.
+		if links++; links > maxDepth {
+			return nil, newNestingError(t.peekNonSpace().Pos)
+		}
 	}
 }
 
@@ -82,6 +95,10 @@ func (t *Tree) parseBinaryExpr(minPrec int) (Expr, error) {
 // that binds tighter than any operator: attribute access, a method or
 // function call, or filter application.
 func (t *Tree) parseOuterExpr(expr Expr) (Expr, error) {
+	defer func() { t.depth-- }()
+	if err := t.deeper(); err != nil {
+		return nil, err
+	}
 	switch nt := t.nextNonSpace(); nt.tokenType {
 	case tokenParensOpen:
 		switch name := expr.(type) {
